@@ -431,3 +431,85 @@ def run(ctx):
     r2_history(ctx)
     r3_r4_repetition(ctx)
     ctx.assumptions += ["Bitboard::make increments halfmove_clock by exactly 1 per ply unless it resets it (checked by C02.R3)"]
+
+
+def r6_counter_walk(ctx):
+    """count_repetitions looks at exactly the plies with the same side to move inside the window"""
+    rid = "C10.R6"
+    ctx.rule(rid, "ZobristHistory::count_repetitions walks from start - 4 downwards in steps of 2 (same side to move, a position cannot recur earlier) while the index is >= max(0, start - half-move clock), compares each entry with the entry at start, starts its count at 1 and answers 3 as soon as the count reaches 3", floor=5)
+    f = ctx.fn(rid, ZH + "count_repetitions")
+    cfg, ex = Cfg(f), Exprs(f)
+    START, CLOCK = ("param", 2), ("param", 3)
+    be = cfg.back_edges()
+    if len(be) != 1:
+        ctx.lost(rid, "count_repetitions: exactly one loop (found %d back edges): the walk over the history is written in another idiom" % len(be))
+        return
+    # induction variable: two definitions, one of them `iv - c`
+    iv = None
+    for l, defs in ex.defs.items():
+        if len(defs) == 2 and all(d[0] == "stmt" for d in defs):
+            trees = [ex.rvalue(d[3]) for d in defs]
+            for init, upd in (trees, trees[::-1]):
+                if upd[0] == "bin" and upd[1] in ("Sub", "SubWithOverflow") and upd[2] == ("local", l) and upd[3][0] == "c":
+                    iv = (l, init, upd[3][1])
+    if iv is None:
+        ctx.lost(rid, "count_repetitions: a loop index that decreases by a constant")
+        return
+    l, init, step = iv
+    def strip(t):
+        while t[0] == "cast":
+            t = t[2]
+        return t
+    ok = init[0] == "bin" and init[1].startswith("Sub") and strip(init[2]) == START and init[3][0] == "c" and init[3][1] == 4
+    ctx.ob(rid, "starts-four-plies-back", ok, "" if ok else "the walk starts at %s (expected start - 4)" % show(init), ctx.where(f), sample={"init": show(init)})
+    ctx.ob(rid, "steps-by-two", step == 2, "" if step == 2 else "the walk steps by %s (expected 2: entries with the same side to move)" % step, ctx.where(f), sample={"step": step})
+    # loop test
+    cond = None
+    for b in sorted(cfg.reach):
+        t = f["blocks"][b]["term"]
+        if t["k"] == "switch" and cfg.in_loop(b):
+            d = ex.operand(t["discr"])
+            if d[0] == "bin" and d[1] in ("Ge", "Gt", "Le", "Lt") and ("local", l) in (d[2], d[3]):
+                cond = d
+    ok = False
+    if cond is not None:
+        other = cond[3] if cond[2] == ("local", l) else cond[2]
+        op = cond[1] if cond[2] == ("local", l) else {"Ge": "Le", "Le": "Ge", "Gt": "Lt", "Lt": "Gt"}[cond[1]]
+        if op == "Ge" and other[0] == "call" and other[1].endswith("cmp::max"):
+            args = [strip(a) for a in other[2]]
+            zero = [a for a in args if a[0] == "c" and a[1] == 0]
+            diff = [a for a in args if a[0] == "bin" and a[1].startswith("Sub") and strip(a[2]) == START and strip(a[3]) == CLOCK]
+            ok = len(zero) == 1 and len(diff) == 1
+    ctx.ob(rid, "window-lower-bound", ok, "" if ok else "the walk continues while %s (expected index >= max(0, start - half-move clock))" % (show(cond) if cond else "?"), ctx.where(f), sample={"condition": show(cond) if cond else None})
+    # comparison with the entry at start
+    cmp_ok = False
+    for b in sorted(cfg.reach):
+        t = f["blocks"][b]["term"]
+        if t["k"] == "switch" and cfg.in_loop(b):
+            d = ex.operand(t["discr"])
+            if d[0] == "bin" and d[1] == "Eq":
+                idxs = []
+                for side in (d[2], d[3]):
+                    for x in leaves(side):
+                        if x[0] == "call" and x[1].endswith("::index"):
+                            idxs.append(strip(x[2][1]))
+                if ("local", l) in idxs and START in idxs:
+                    cmp_ok = True
+    ctx.ob(rid, "compares-with-the-current-entry", cmp_ok, "" if cmp_ok else "the loop does not compare history[index] with history[start]", ctx.where(f))
+    # count starts at 1
+    cnt_ok = False
+    for l2, defs in ex.defs.items():
+        if len(defs) == 2 and all(d[0] == "stmt" for d in defs):
+            trees = [ex.rvalue(d[3]) for d in defs]
+            for init2, upd in (trees, trees[::-1]):
+                if upd[0] == "bin" and upd[1].startswith("Add") and ("local", l2) in (upd[2], upd[3]) and any(x[0] == "c" and x[1] == 1 for x in (upd[2], upd[3])) and init2[0] == "c" and init2[1] == 1:
+                    cnt_ok = True
+    ctx.ob(rid, "count-includes-the-current-position", cnt_ok, "" if cnt_ok else "the occurrence count does not start at 1 (the position itself) and grow by 1 per match", ctx.where(f))
+
+
+_run_before_r6 = run
+
+
+def run(ctx):
+    _run_before_r6(ctx)
+    r6_counter_walk(ctx)
